@@ -108,7 +108,7 @@ func faultMain(x *X) {
 		switch {
 		case o.ClientPanic != "":
 		case o.Err == "":
-			if complete.Res == nil || Compare(o.Res, complete.Res, Tol).Kind != "" {
+			if (complete.Res == nil || Compare(o.Res, complete.Res, Tol).Kind != "") && !x.undecidable(op, c.Data) {
 				x.Viol("C14", "partial-result", "partial-result|"+path, fmt.Sprintf("%s: cancelled at step %d, Exec returned at step %d a successful result that is not the complete one: got %s, complete %s", op.Q, o.CancelStep, o.ExecEnd, o.Brief(), complete.Brief()))
 			} else {
 				x.Probe("cancel-after-completion")
@@ -167,8 +167,8 @@ func faultMain(x *X) {
 		if prop != "C13" && prop != "C14" && prop != "C15" {
 			prop = "C13"
 		}
-		if (o2.Err != "") != (complete.Err != "") || o2.Created != complete.Created ||
-			(o2.Res != nil && complete.Res != nil && Compare(o2.Res, complete.Res, Tol).Kind != "") {
+		if ((o2.Err != "") != (complete.Err != "") || o2.Created != complete.Created ||
+			(o2.Res != nil && complete.Res != nil && Compare(o2.Res, complete.Res, Tol).Kind != "")) && !x.undecidable(op2, c.Data) {
 			x.Viol(prop, "follow-up-differs", "follow-up-differs|"+path, fmt.Sprintf("%s: after the faulted query, the same query on the same engine returned %s; alone it returns %s", op.Q, o2.Brief(), complete.Brief()))
 		}
 		x.queryOracles(o2, op2, st)
